@@ -95,7 +95,7 @@ func (Engine) Execute(t *testing.T, sc *kernel.Scenario, trace bool) *kernel.Res
 var commonReal = []string{"client.Client (proposal, update, sync, dispute, sub-channel protocols)", "channel.StateMachine + persistence.StateMachine",
 	"watcher/local.Watcher", "wire.Relay/Receiver/Cache (per-client and per-channel connections)", "wire/perunio serializer (every envelope is encoded and decoded on the bus)",
 	"backend/sim channel+wallet+wire (real ECDSA signatures)", "polycry.pt/poly-go sync primitives"}
-var commonStub = []string{"wire.Bus -> world.Bus (keyed delays, FIFO or unordered, sync or async publish, loss/duplication in relaxed configurations)",
+var commonStub = []string{"wire.Bus -> world.Bus (keyed delays, FIFO or unordered, sync or async publish, loss/duplication in relaxed configurations; in a part of the C06 runs the deliveries themselves are made by the library's real wire.LocalBus behind these seams; failing sends fail at once or stall until the sender's context ends)",
 	"channel.Funder/Adjudicator/RegisterSubscriber -> world.Ledger (strict reference ledger on the simulated clock)",
 	"time -> testing/synctest fake clock", "user handlers -> policy callbacks with keyed reaction times", "persistence.PersistRestorer -> recording wrapper around NonPersistRestorer"}
 
@@ -103,7 +103,7 @@ func (Engine) Describe(prop string) kernel.Describe {
 	d := kernel.Describe{Real: commonReal, Stub: commonStub}
 	switch prop {
 	case "C06":
-		d.Rule = "two real clients with 1-3 ledger channels; programs of up to 15 Channel.Update calls from either side (sequential, back-to-back, concurrent on the same and on different channels), keyed accept/reject decisions and reaction times, one synctest bubble per run with keyed delays at bus, ledger, handlers and yield hooks. Strict runs (no timed-out request): success => both Enabled streams hold the proposed state fully signed; rejection => never enabled; no fork; versions differ by at most one at every Enabled event; accept => enabled; both Acting and a probe update succeeds. Token configuration: no request may time out. Relaxed runs (loss, duplication, short contexts): only the fully-signed invariant. Non-trivial: at least one successful update and (a rejection or overlapping updates); distinct = scenario digest x interleaving hash. Later additions: channel synchronisation messages injected during the program (replies taken by the driver), restart runs (one client crashes, only its store survives, is restored; the survivor may update meanwhile) in which successful updates on current instances are judged, handlers answering with nearly expired contexts; the success clause is judged in relaxed runs on non-duplicating networks too."
+		d.Rule = "two real clients with 1-3 ledger channels; programs of up to 15 Channel.Update calls from either side (sequential, back-to-back, concurrent on the same and on different channels), keyed accept/reject decisions and reaction times, one synctest bubble per run with keyed delays at bus, ledger, handlers and yield hooks. Strict runs (no timed-out request): success => both Enabled streams hold the proposed state fully signed; rejection => never enabled; no fork; versions differ by at most one at every Enabled event; accept => enabled; both Acting and a probe update succeeds. Token configuration: no request may time out. Relaxed runs (loss, duplication, short contexts): only the fully-signed invariant. Non-trivial: at least one successful update and (a rejection or overlapping updates); distinct = scenario digest x interleaving hash. Later additions: channel synchronisation messages injected during the program (replies taken by the driver), restart runs (one client crashes, only its store survives, is restored; the survivor may update meanwhile) in which successful updates on current instances are judged, handlers answering with nearly expired contexts; the success clause is judged in relaxed runs on non-duplicating networks too; runs whose deliveries go through the real wire.LocalBus (strict, and relaxed with nearly expired answer contexts)."
 		d.FaultKinds = []string{"delay/reorder", "loss", "duplication", "short context timeouts", "slow handlers", "yield hooks (buggify subset)"}
 		d.Assumptions = []string{"the bus delivers exactly once in strict configurations (go-perun's stated assumption); loss and duplication are only injected in relaxed runs",
 			"concurrent proposals on one channel from both sides legitimately time out; such runs fall under the relaxed oracle"}
